@@ -99,6 +99,9 @@ def run_case(case, stats):
         cs = gen.make_cs(cfg, gen.render(case["defs"]))
         name = case["defs"]["structs"][-1]["name"]
         root = getattr(cs, name)
+        # the stand-alone reference parses are done by a SECOND cstruct object with the same definitions, so that they
+        # cannot disturb (or repair) any state the history under test leaves on the type objects
+        root_ref = getattr(gen.make_cs(cfg, gen.render(case["defs"])), name)
     except Exception:
         raise Discard("load_fail")
     if case["image"] is None:
@@ -158,7 +161,7 @@ def run_case(case, stats):
             if p % unit:
                 stats.count("probe.parse_skipped_unaligned_position")
                 continue
-            exp = _ref(root, image, p)
+            exp = _ref(root_ref, image, p)
             try:
                 v = _do_parse(cs, root, name, stream, op["form"])
                 got = ("val", observe(v), stream.tell() - p)
@@ -186,14 +189,24 @@ def run_case(case, stats):
             p = stream.tell()
             if p % unit:
                 continue
-            st = SimStream(image, pos=p, faults=[{"kind": "raise_read", "i": op["i"], "e": op["e"]}])
+            if isinstance(stream, SimStream):
+                # inject the fault into the live stream object: what follows happens on the SAME stream
+                stream.by_read[stream.n_read + op["i"]] = {"kind": "raise_read", "i": stream.n_read + op["i"], "e": op["e"]}
+                st = stream
+                n_fired = len(st.fired)
+            else:
+                st = SimStream(image, pos=p, faults=[{"kind": "raise_read", "i": op["i"], "e": op["e"]}])
+                n_fired = 0
             try:
                 root(st)
-                fired = bool(st.fired)
+                fired = len(st.fired) > n_fired
             except Exception:  # noqa: BLE001
                 fired = True
-            if st.fired:
+            if len(st.fired) > n_fired:
                 stats.count("fault.raise_read")
+            if st is stream:
+                for key in [k_ for k_ in stream.by_read if k_ >= stream.n_read]:
+                    del stream.by_read[key]  # a fault that did not fire must not hit a later operation
             stream.seek(p)
             hist.append("parse_fault" if fired else "parse_ok")
     # ---- twin image: bytes before p and after the extent re-randomised
@@ -220,7 +233,10 @@ def run_case(case, stats):
         # ---- input kinds and call forms on image[p:]
         chunk = image[p:]
         exp = ("val", _values_only(got[1]))
-        for kind, obj in (("bytes", chunk), ("bytearray", bytearray(chunk)), ("memoryview", memoryview(chunk))):
+        whole_ba = bytearray(image)
+        for kind, obj in (("bytes", chunk), ("bytearray", bytearray(chunk)), ("memoryview", memoryview(chunk)),
+                          ("memoryview-slice-of-bytes", memoryview(image)[p:]), ("memoryview-slice-of-bytearray", memoryview(whole_ba)[p:]),
+                          ("memoryview-of-bytearray", memoryview(bytearray(chunk)))):
             for form in ("call", "read", "reads", "cs.read"):
                 try:
                     if form == "call":
